@@ -56,7 +56,11 @@ type Req struct {
 }
 
 type Step struct {
-	Op      string   `json:"op"` // burst update setmodel query probe quiesce mixed
+	Op      string   `json:"op"` // burst update setmodel query probe quiesce mixed starve
+	// starve: Reqs = as many holders as the pool has instances, then the waiters; Which = the list ("resident" |
+	// "addition" | "any") whose instance is handed back first
+	Which   string   `json:"which"`
+	Waiters int      `json:"waiters"`
 	Reqs    []Req    `json:"reqs"`
 	Update  *Update  `json:"update"`
 	Updates []Update `json:"updates"`
@@ -111,6 +115,10 @@ type drv struct {
 	trigMu  sync.Mutex
 	trigged map[int64]bool
 	gatePub bool
+	manual  map[int64]chan struct{} // requests held inside rule "own" until the driver lets them go (starve steps)
+	instOf  map[int64]int64         // request -> instance it popped
+	entered int64
+	ended   map[int64]bool
 }
 
 var D atomic.Value // *drv of the running session; the hook is installed once and dispatches through it
@@ -164,7 +172,12 @@ func (d *drv) api() map[string]interface{} {
 			d.o.Hold(obs.Event{"ev": "rule", "q": q, "r": r, "tag": tag}, r)
 			d.mu.Lock()
 			rq := d.reqs[q]
+			mch := d.manual[q]
 			d.mu.Unlock()
+			if mch != nil && r == "own" {
+				atomic.AddInt64(&d.entered, 1)
+				<-mch
+			}
 			if rq != nil && rq.Trigger != nil && rq.TrigRule == r {
 				d.trigMu.Lock()
 				done := d.trigged[q]
@@ -212,10 +225,12 @@ func (d *drv) hook(site string, a, b int64) {
 	case "pop":
 		d.mu.Lock()
 		q, ok := d.byGo[goid()]
-		d.mu.Unlock()
 		if !ok {
 			q = -1
+		} else {
+			d.instOf[q] = a
 		}
+		d.mu.Unlock()
 		d.o.Emit(obs.Event{"ev": "pop", "q": q, "i": a, "locked": b % 2, "len": b / 2})
 	case "spin":
 		g := goid()
@@ -373,6 +388,98 @@ func (d *drv) request(r *Req, cv bool) {
 	d.o.Emit(ev)
 	d.mu.Lock()
 	delete(d.byGo, goid())
+	d.ended[r.Q] = true
+	d.mu.Unlock()
+}
+
+// starve: every instance is held by a request parked inside a rule; further requests arrive and wait; one holder
+// (of the wanted list) is let go and NOTHING else happens until a waiter has completed - a waiter that does not
+// take the instance that was handed back leaves the session hanging (watchdog, reproduced by the runner).
+func (d *drv) starve(st *Step) {
+	nh := len(st.Reqs) - st.Waiters
+	holders, waiters := st.Reqs[:nh], st.Reqs[nh:]
+	d.mu.Lock()
+	for i := range holders {
+		d.manual[holders[i].Q] = make(chan struct{})
+	}
+	d.mu.Unlock()
+	atomic.StoreInt64(&d.entered, 0)
+	var wg sync.WaitGroup
+	for i := range holders {
+		wg.Add(1)
+		go func(r *Req) { defer wg.Done(); d.request(r, false) }(&holders[i])
+	}
+	for t := 0; t < 4000 && atomic.LoadInt64(&d.entered) < int64(nh); t++ {
+		time.Sleep(500 * time.Microsecond)
+	}
+	for i := range waiters {
+		wg.Add(1)
+		go func(r *Req) { defer wg.Done(); d.request(r, false) }(&waiters[i])
+	}
+	// the waiters have arrived and found nothing
+	for t := 0; t < 100; t++ {
+		time.Sleep(500 * time.Microsecond)
+		d.mu.Lock()
+		n := 0
+		for i := range waiters {
+			if d.spun[waiters[i].Q] {
+				n++
+			}
+		}
+		d.mu.Unlock()
+		if n == len(waiters) {
+			break
+		}
+	}
+	released := map[int64]bool{}
+	nEnded := func() int {
+		d.mu.Lock()
+		defer d.mu.Unlock()
+		n := 0
+		for i := range waiters {
+			if d.ended[waiters[i].Q] {
+				n++
+			}
+		}
+		return n
+	}
+	for k := range waiters {
+		// let one holder go: preferably one whose instance belongs to the wanted list
+		pick := int64(-1)
+		d.mu.Lock()
+		for i := range holders {
+			q := holders[i].Q
+			if released[q] {
+				continue
+			}
+			inst, ok := d.instOf[q]
+			match := st.Which == "any" || !ok || (st.Which == "addition") == (inst >= d.sess.Min)
+			if pick < 0 || match {
+				pick = q
+				if match {
+					break
+				}
+			}
+		}
+		if pick >= 0 {
+			released[pick] = true
+			close(d.manual[pick])
+		}
+		d.mu.Unlock()
+		for nEnded() < k+1 {
+			time.Sleep(200 * time.Microsecond) // the session watchdog ends this wait if the waiter never proceeds
+		}
+	}
+	d.mu.Lock()
+	for i := range holders {
+		if q := holders[i].Q; !released[q] {
+			close(d.manual[q])
+		}
+	}
+	d.mu.Unlock()
+	wg.Wait()
+	d.mu.Lock()
+	d.manual = map[int64]chan struct{}{}
 	d.mu.Unlock()
 }
 
@@ -469,7 +576,8 @@ func runSession(s *Session, quiet time.Duration, seed int64) ([]obs.Event, bool)
 	all := []obs.Event{{"ev": "session", "id": s.ID}}
 	o := obs.New(s.Gated, quiet, seed+int64(s.ID)*271)
 	o.Silent = s.Silent
-	d := &drv{o: o, byGo: map[int64]int64{}, spun: map[int64]bool{}, reqs: map[int64]*Req{}, sess: s, trigged: map[int64]bool{}}
+	d := &drv{o: o, byGo: map[int64]int64{}, spun: map[int64]bool{}, reqs: map[int64]*Req{}, sess: s, trigged: map[int64]bool{},
+		manual: map[int64]chan struct{}{}, instOf: map[int64]int64{}, ended: map[int64]bool{}}
 	D.Store(d)
 	text := versionText(s.Rules)
 	if s.Kind == "isolation" || s.Kind == "capacity" {
@@ -545,6 +653,9 @@ func runSession(s *Session, quiet time.Duration, seed int64) ([]obs.Event, bool)
 				d.queries(st.Args)
 			case "quiesce":
 				d.quiesce()
+			case "starve":
+				d.gatePub = false
+				d.starve(st)
 			}
 		}
 		close(done)
@@ -556,6 +667,19 @@ func runSession(s *Session, quiet time.Duration, seed int64) ([]obs.Event, bool)
 		ok = false
 	}
 	o.StopController()
+	if !ok {
+		// let parked holders go so that the goroutines of a stuck session do not spin behind the next one
+		d.mu.Lock()
+		for q, ch := range d.manual {
+			select {
+			case <-ch:
+			default:
+				close(ch)
+			}
+			delete(d.manual, q)
+		}
+		d.mu.Unlock()
+	}
 	o.Settle(time.Millisecond)
 	D.Store((*drv)(nil))
 	all = append(all, o.Take()...)
